@@ -14,8 +14,8 @@ import (
 	"github.com/Masterminds/semver"
 	"github.com/google/go-containerregistry/pkg/name"
 	"github.com/spf13/afero"
-	metav1 "k8s.io/apimachinery/pkg/apis/meta/v1"
 	"k8s.io/apimachinery/pkg/api/meta"
+	metav1 "k8s.io/apimachinery/pkg/apis/meta/v1"
 	"k8s.io/apimachinery/pkg/runtime"
 	"k8s.io/apimachinery/pkg/runtime/schema"
 	"k8s.io/apimachinery/pkg/types"
@@ -292,7 +292,7 @@ func (l *lockedClient) Status() client.SubResourceWriter { return l.SubResource(
 func (l *lockedClient) SubResource(sub string) client.SubResourceClient {
 	return &lockedSub{l: l, sub: sub}
 }
-func (l *lockedClient) Scheme() *runtime.Scheme   { return l.c.Scheme() }
+func (l *lockedClient) Scheme() *runtime.Scheme     { return l.c.Scheme() }
 func (l *lockedClient) RESTMapper() meta.RESTMapper { return l.c.RESTMapper() }
 func (l *lockedClient) GroupVersionKindFor(o runtime.Object) (schema.GroupVersionKind, error) {
 	return l.c.GroupVersionKindFor(o)
